@@ -8,6 +8,7 @@ mod crash;
 mod sched;
 mod sqlrun;
 mod tracecmd;
+mod watchdog;
 
 fn main() {
     // panics of the code under test are data, not noise
